@@ -451,6 +451,20 @@ def contract_known_ifexp(fnode, ref: dict) -> int:
         return 0
     n = 0
     for owner, fld, blk in _blocks(fnode):
+        # `if c: return A` directly followed by `return B` is the same exit pair as `if c: return A else: return B`
+        for i, st in enumerate(blk[:-1]):
+            nx = blk[i + 1]
+            if isinstance(st, ast.If) and not st.orelse and len(st.body) == 1 and isinstance(st.body[0], ast.Return) and st.body[0].value is not None and isinstance(nx, ast.Return) and nx.value is not None:
+                for cand in (ast.IfExp(test=st.test, body=st.body[0].value, orelse=nx.value), ast.IfExp(test=_negate(copy.deepcopy(st.test)), body=nx.value, orelse=st.body[0].value)):
+                    ast.fix_missing_locations(ast.copy_location(cand, st))
+                    if _unparse(cand) in known:
+                        new = ast.Return(value=cand)
+                        ast.fix_missing_locations(ast.copy_location(new, st))
+                        blk[i:i + 2] = [new]
+                        n += 1
+                        break
+                break
+    for owner, fld, blk in _blocks(fnode):
         for i, st in enumerate(blk):
             if isinstance(st, ast.If) and len(st.body) == 1 and len(st.orelse) == 1 and type(st.body[0]) is type(st.orelse[0]) and isinstance(st.body[0], (ast.Return, ast.Expr)) \
                     and st.body[0].value is not None and st.orelse[0].value is not None:
